@@ -12,6 +12,35 @@ PSC = "berty.tech/go-orbit-db/pubsub/pubsubcoreapi"
 OOO = "berty.tech/go-orbit-db/pubsub/oneonone"
 
 CHECKS = {
+    "C15": {
+        "groups": [{
+            "pkg": BS, "funcs": ["VerifC15Load"],
+            "params": {"quick": {"T": 3}, "thorough": {"T": 5}},
+            "covers": {"VerifC15Load": ["loaded"]},
+        }],
+        "assumptions": [
+            "persisted log built by real AddOperation calls (single-writer chain of T entries) or by two writers with a real Sync (local + remote cached heads), then Close and a fresh store over the same cache and block store",
+            "limit = ANY 64-bit integer (symbolic), passed per call or through MaxHistory (then the call argument is -1 or 0)",
+            "the real ipfs-log fetcher, NewFromEntryHash, Join (incl. its size trimming) and Values are interpreted; IPFS is a block-store stub",
+        ],
+        "outside": ["T beyond the bound", "schedules of the fetcher's worker goroutines other than run-to-block FIFO"],
+    },
+    "C17": {
+        "groups": [{
+            "pkg": BS, "funcs": ["VerifC17Concurrent"],
+            "params": {"quick": {"W": 2, "P": 1}, "thorough": {"W": 3, "P": 2}},
+            "max_paths": {"quick": 60000, "thorough": 600000},
+            "timeout": {"quick": "10m", "thorough": "60m"},
+            "covers": {"VerifC17Concurrent": ["written", "reloaded"]},
+        }],
+        "assumptions": [
+            "W writer goroutines on one real BaseStore (InitBaseStore over stubs) calling the real AddOperation with the real ipfs-log Append; payloads symbolic",
+            "schedule: run-to-block with FIFO hand-over; at every visible operation (mutex/rwmutex lock+unlock, channel send/receive/select/close, go, waitgroup wait, cache write, block write) the path may preempt the running thread, at most P times per path (CHESS-style preemption bounding); every such schedule is explored",
+            "then Close, a fresh store over the same cache and block store, real Load(-1) with the real ipfs-log fetcher",
+            "schedule-dependent counterexamples are replayed natively by forcing the recorded order of stub effects (block writes, cache writes) with a turnstile",
+        ],
+        "outside": ["data races below visible-operation granularity (no memory-model exploration)", "more than P preemptions, more than W writers"],
+    },
     "C20": {
         "groups": [{
             "pkg": PSC, "funcs": ["VerifC20PeersDiff", "VerifC20SelfFilter"],
@@ -103,13 +132,16 @@ CHECKS = {
     "C19": {
         "groups": [{
             "pkg": BS,
-            "funcs": ["VerifC19Step", "VerifC19Rest"],
-            "covers": {"VerifC19Step": ["max", "status"], "VerifC19Rest": ["update", "no-update"]},
+            "funcs": ["VerifC19Step", "VerifC19Rest", "VerifC19History"],
+            "params": {"quick": {"STEPS": 3}, "thorough": {"STEPS": 5}},
+            "max_paths": {"quick": 20000, "thorough": 200000},
+            "covers": {"VerifC19Step": ["max", "status"], "VerifC19Rest": ["update", "no-update"], "VerifC19History": ["history", "reloaded"]},
         }],
         "assumptions": [
             "inductive step: pre-state is ANY (progress, max, log length) with 0 <= progress <= max < 2^62, 0 <= length < 2^62; argument 0 <= x < 2^62",
             "entry points encoded: recalculateReplicationMax (main loop EventLoadAdded, LoadFromSnapshot) and recalculateReplicationStatus (AddOperation, Load, replicationLoadComplete, EventLoadProgress); recalculateReplicationProgress is only ever called from recalculateReplicationStatus",
             "oplog is a stub exposing only Len() (symbolic); replicationInfo is the real type",
+            "history harness: two writers with concurrent branches, STEPS steps of local write / real Sync in any order, the real main loop, replicator and replicationLoadComplete update the status; checked at quiescence after every step and after reopen + Load",
         ],
         "outside": ["values >= 2^62", "Reset() on Close (the property says 'while open')",
                     "that every update site passes a Lamport time / entry count (covered by reading; each site calls one of the encoded entry points)"],
